@@ -29,7 +29,8 @@ def cases(draw, nums, pmax=5, kmax=5):
     seqtype = draw(st.sampled_from(["tuple", "list", "ndarray", "gen", "iter", "map"]))
     return {"curve": c, "outside": outside, "seqtype": seqtype, "order": draw(st.sampled_from(lib.SEQ_ORDERS)),
             "via_eval": draw(st.integers(0, 3)) == 0, "history": draw(st.sampled_from(lib.HISTORY_MODES)),
-            "intparam": draw(st.booleans()), "twin_first": draw(st.integers(0, 2)) == 0}
+            "intparam": draw(st.booleans()), "twin_first": draw(st.integers(0, 2)) == 0,
+            "repeats": draw(st.sampled_from([None, None, None, "mirror", "some"]))}
 
 
 def tol_of(st_):
@@ -83,7 +84,7 @@ def check(case, out):
         ";exact" if exact else ";float")
     tol = tol_of(ref)
 
-    params = gen.params_of(c["U"], 3)
+    params = gen.params_of(c["U"], 3, gen.NEAR)
     if exact:
         tiny = F(1, 10 ** 30)
         params = sorted(params + [z - tiny for z in interior] + [z + tiny for z in interior]
@@ -132,6 +133,10 @@ def check(case, out):
     # (the nodes in any order and in any of the accepted sequence forms, one-shot iterables included)
     order = case.get("order", "given")
     sparams, srefs = lib.reorder(lparams, order), lib.reorder(refvals, order)
+    if case.get("repeats"):
+        # one point per node also when a node occurs several times in the sequence
+        out.cls("repeated-nodes-in-sequence")
+        sparams, srefs = lib.with_repeats(sparams, case["repeats"]), lib.with_repeats(srefs, case["repeats"])
     if case["seqtype"] == "ndarray":
         seq = np.array(sparams, dtype=object if exact else "float64")
     else:
